@@ -92,7 +92,7 @@ type usablePhase struct {
 func RunUsable(e *Env) {
 	R := e.R
 	R.Rule = "workload phases of concurrent and sequential calls of all 21 kinds with cancellation at random instants (before/during/after sending), slow quorum functions, slow and streaming servers, handlers failing one invocation in seven (calls ending by node errors), PCT delays at all channel hook points, " +
-		"plus directed scripts (stale-broken window of reconnect held open with hooks; server streams outrunning a finished correctable; cancellation while a write is blocked by flow control); " +
+		"plus directed scripts (stale-broken window of reconnect held open with hooks; server streams outrunning a finished correctable; cancellation while a write is blocked by flow control; 600 sequential send-waiting one-way calls each cancelled right after it returned, all of which must arrive); " +
 		"after every phase, with servers answering instantly, a probe RPC with a fresh context to every node (3 attempts); distinct = phase parameters; non-trivial = >=2 calls with cancellation or streaming"
 	R.Assume("a first probe attempt may legitimately fail with 'stream is down' while the stream is being re-created; a node is unusable only if 3 attempts fail or a probe stays parked (hang rule)")
 	rng := e.Rand(9)
@@ -105,6 +105,7 @@ func RunUsable(e *Env) {
 			usablePhase{Kind: "directed", Directed: "stream-outruns-finished-correctable", N: 1 + rep%3, StreamK: 200 + 400*(rep%4), Calls: 1},
 			usablePhase{Kind: "directed", Directed: "cancel-while-write-blocked", N: 1 + rep%2, Calls: 8},
 			usablePhase{Kind: "directed", Directed: "cancel-right-after-return", N: 1 + rep%3, Calls: 300},
+			usablePhase{Kind: "directed", Directed: "oneway-cancel-right-after-return", N: 1 + rep%3, Calls: 600},
 			usablePhase{Kind: "directed", Directed: "stream-outruns-while-peer-sender-is-jammed", N: 2 + rep%2, StreamK: 100 + 100*(rep%3), Calls: 1},
 		)
 	}
@@ -350,6 +351,69 @@ func runUsablePhase(e *Env, idx int, ph usablePhase) string {
 			<-t.Done
 		}
 		R.Count("directed.cancel_after_return", 1)
+	case "oneway-cancel-right-after-return":
+		// the same pattern with send-waiting one-way calls only, and the clause "later calls to it are delivered": such a call
+		// returns after its write has been confirmed, so ending its context afterwards concerns nobody; every message arrives
+		want := make([]map[uint64]bool, ph.N)
+		for i := range want {
+			want[i] = map[uint64]bool{}
+		}
+		for i := 0; i < ph.Calls; i++ {
+			tok := h.NewToken()
+			req := &puppet.Req{Call: tok, Seq: tok, Kind: 9}
+			ctx, cancel := context.WithCancel(context.Background())
+			node := i % ph.N
+			multi := i%3 == 2
+			t := h.Go("wl:oneway", func() {
+				if multi {
+					cl.Cfg.Multi(ctx, req)
+				} else {
+					cl.Node(node).Uni(ctx, req)
+				}
+				cancel()
+			})
+			if hi := h.Await(t, e.W); hi.Verdict != h.Returned {
+				cancel()
+				R.Violate("unusable:"+hi.Sig, "send-waiting one-way call to a reachable node does not return: "+hi.Sig, map[string]any{"phase": ph, "stack": hi.Stack})
+				return hi.Sig
+			}
+			if multi {
+				for j := range want {
+					want[j][tok] = true
+				}
+			} else {
+				want[node][tok] = true
+			}
+		}
+		missing := func() int {
+			m := 0
+			for j, s := range cl.Srvs {
+				got := map[uint64]bool{}
+				for _, en := range s.Log() {
+					got[en.Call] = true
+				}
+				for tok := range want[j] {
+					if !got[tok] {
+						m++
+					}
+				}
+			}
+			return m
+		}
+		for dl := time.Now().Add(e.W); missing() > 0 && time.Now().Before(dl); {
+			time.Sleep(5 * time.Millisecond)
+		}
+		if m := missing(); m > 0 {
+			var resets int64
+			if e.Hooks != nil {
+				for _, id := range cl.IDs {
+					resets += e.Hooks.Count("wat.beforeCancel", id)
+				}
+			}
+			R.Violate("later-calls-not-delivered", fmt.Sprintf("%d of %d sequential send-waiting one-way calls to reachable nodes were never delivered; each context was cancelled only after its call had returned (stream resets by the cancellation watcher: %d)", m, ph.Calls, resets), map[string]any{"phase": ph})
+			return "later-calls-not-delivered"
+		}
+		R.Count("directed.oneway_cancel_after_return_calls_all_delivered", int64(ph.Calls))
 	default:
 		var wg sync.WaitGroup
 		per := ph.Calls / ph.Workers
